@@ -229,6 +229,16 @@ CHECKS = {
 PROCESS = (' Three planned shards run a second time in an interpreter started with PYTHONOPTIMIZE=1 (assert statements stripped from the library and the generated class), '
            'two over workbooks that carry number formats (Text, percent, fixed, scientific) on numbers and formulas, hidden rows and columns, comments, hyperlinks, widths, '
            'frozen panes, a filter, a validation and a conditional format, and the host-settings shards also under calendar.setfirstweekday(SUNDAY) - all with the expectations of the plain run.')
+R12 = {
+    'C02': ' Unknown-title probes also use titles that earlier workbooks of the same process had.',
+    'C04': ' Half of the last batches are written through one Cell object that the caller moves and fills before each of several set_cells calls.',
+    'C12': ' Text cells ending in a line break; criteria ranges with as many cells in another shape (a row, a 4x2 block) must be refused.',
+    'C15': ' Months and days that carry DATE beyond 9999-12-31 give #NUM!.',
+    'C16': ' Amounts below 0.1 at digit counts 10-25 and 299-301.',
+    'C17': ' SEARCH and criteria functions over the identical text in one class, asked in both orders on two class objects loaded from one translation (law).',
+    'C18': ' After another Executor on the same class object was given cells beyond the stored range, a new instance and a new Executor report the workbook sizes.',
+    'C20': ' ADDRESS at the last row and column of a sheet and their neighbours.',
+}
 R11 = {
     'C03': ' The same formula text without sheet prefixes on two worksheets, and a cell reading both copies.',
     'C05': ' Every function at 1-6 arguments with an EMPTY last argument in four spellings (1920 texts): refused, or the value of the call that writes 0 there.',
@@ -261,7 +271,7 @@ def main():
         if pid not in CHECKS:
             continue
         tech, text, note = CHECKS[pid]
-        text = text + EXTRA.get(pid, '') + R10.get(pid, '') + R11.get(pid, '') + PROCESS
+        text = text + EXTRA.get(pid, '') + R10.get(pid, '') + R11.get(pid, '') + R12.get(pid, '') + PROCESS
         checks.append({
             'property_id': pid,
             'quick_cmd': f'./check {pid} --tier quick',
